@@ -172,7 +172,7 @@ type c09State struct {
 func isRangeResp(t types.Type) bool { return typeIs(t, pbPkg, "ResponseOp_Range") }
 
 func checkC09(w *World, r *Report) {
-	r.Decides = "C09 is decided in its structural part only: (a) the Pebble-iterator / response protocol of the lazy range generator as a typestate (no advance over an unconsumed pair, consume only a valid pair, 'more' at the final message agrees with the iterator position, every non-final message is flagged more and followed by a fresh response, one iterator per stream); (b) the limit guard and its counter; (c) the size cut precedes the pair it makes room for and the cut constant is below the transport limit; (d) count bookkeeping of the fill functions; (e) Kvs/Count/More are handed over field for field by table, engine and server and every pulled message is sent."
+	r.Decides = "C09 is decided in its structural part only: (a) the Pebble-iterator / response protocol of the lazy range generator as a typestate (no advance over an unconsumed pair, consume only a valid pair, 'more' at the final message agrees with the iterator position, every non-final message is flagged more and followed by a fresh response, one iterator per stream); (b) the limit guard and its counter; (c) the size cut precedes the pair it makes room for and the cut constant is below the transport limit; (d) count bookkeeping of the fill functions; (e) Kvs/Count/More are handed over field for field by table, engine and server and every pulled message is sent; (g) a range read nested in a write transaction reads the apply batch, i.e. the same state a plain read issued right after would see (C01.d)."
 	r.NotDecided = []string{"ascending order and absence of duplicates (Pebble's iterator contract)", "the actual encoded size of a message", "equality of keys-only/count-only answers with the full read at value level"}
 	r.Assume = []string{"pebble.Iterator: First/Next return true iff positioned on a pair; Key/Value are valid only then", "a response object is only modified through the fill functions and the More field"}
 
@@ -192,6 +192,9 @@ func checkC09(w *World, r *Report) {
 
 	c09Fill(w, r, outer)
 	c09HandOver(w, r)
+	if a := w.FsmAnchors(); len(a.Problems) == 0 && a.Update != nil {
+		c01ReadOwnBatch(w, r, a, "C09.g", "g-range-in-txn-reads-batch")
+	}
 	obF := r.Ob("C09.f", "f-owned-bounds", "no slice of a pooled buffer (bufferPool.Get … defer Put) is returned, stored into an object, captured or sent in the state-machine package: range bounds handed to the lazily opened iterator are owned copies", "the iterator of a streamed read is opened after the bounds builder returned its buffers to the pool: aliased bounds are overwritten by the next request and the stream returns keys outside [key, range_end)")
 	checkPooledEscapes(w, obF, fsmRel)
 	obF.NeedFloor(4)
